@@ -60,6 +60,19 @@ def hint_mutations(p, sig, rng):
     cnt = [sig[ho + p.omega + i] for i in range(p.K)]
     tot = cnt[-1]
     rows = [i for i in range(p.K) if cnt[i] - (cnt[i - 1] if i else 0) >= 2]
+    # hash-consistent duplicate: one index listed twice in place, later indices shifted, this and all later counters + 1;
+    # the decoded hint SET is unchanged, so only the strict-ordering check rejects it
+    if tot < p.omega:
+        ne_rows = [i for i in range(p.K) if cnt[i] - (cnt[i - 1] if i else 0) >= 1]
+        if ne_rows:
+            i = rng.choice(ne_rows); s0 = cnt[i - 1] if i else 0
+            j = rng.randrange(s0, cnt[i])
+            idxs = list(sig[ho:ho + tot])
+            idxs.insert(j, idxs[j])
+            e = bytearray(sig)
+            e[ho:ho + p.omega] = bytes(idxs) + bytes(p.omega - len(idxs))
+            for r in range(i, p.K): e[ho + p.omega + r] = cnt[r] + 1
+            res.append((bytes(e), "dup-insert"))
     for dk in ("swap", "dup", "cnt+1", "cnt-1", "cnt>omega", "cnt255", "cnt<prev", "pad1", "pad255", "padlast"):
         e = bytearray(sig)
         if dk in ("swap", "dup"):
@@ -171,7 +184,7 @@ def _gen_set(job):
         first = True
         for s, m in zip(sigs, msgs):
             for e, dk in hint_mutations(p, s, rng):
-                add(e, m, pk, ["mutation", "hint-" + dk], first and dk in ("swap", "pad1"))
+                add(e, m, pk, ["mutation", "hint-" + dk], first and dk in ("swap", "pad1", "dup-insert"))
             first = False
         zbig = sign_skip_znorm(p, sk, msgs[1])
         if zbig is not None:
@@ -220,6 +233,11 @@ def _gen_set(job):
         for v in (b - 1, b, -(b - 1), -b):
             vec = [0] * (256 * p.L); vec[rng.randrange(256 * p.L)] = v
             out.append(Case("l_chknorm", LEVEL_OF[cp], [vec, b], ["in_domain", "kernel-dependency"], aux=("norm", 1 if abs(v) >= b else 0)))
+        # UseHint at the tie r0 = 0 with the hint set (the specification decrements): honest signers never hint there, so only
+        # a crafted signature reaches it in verification; the kernel is compared directly
+        for kk in (0, 1, rng.randrange(2, p.m - 1), p.m - 1):
+            a = kk * 2 * p.g2
+            out.append(Case("use_hint", LEVEL_OF[cp], [a, 1], ["in_domain", "kernel-dependency"], aux=("usehint", pyref.use_hint(p, 1, a))))
         # the same through the API
         api = API_OF[cp]
         if p.mldsa:
@@ -237,6 +255,8 @@ def nontrivial(c, out):
 
 
 def oracle(c, outs):
+    if c.fn == "use_hint":
+        return None if outs[0] == c.aux[1] else "use_hint(%s, 1) = %d, the specification's UseHint gives %d (tie r0 = 0)" % (c.args[0], outs[0], c.aux[1])
     if c.fn == "l_chknorm":
         return None if outs[0] == c.aux[1] else "l_chknorm at the verifier's bound gamma1-beta returned %d, expected %d (the z gate is not exact)" % (outs[0], c.aux[1])
     cp = c.copy
